@@ -5,8 +5,11 @@
 package c04
 
 import (
+	"io"
+
 	"encoding/json"
 	"fmt"
+	oe "github.com/ossrs/go-oryx-lib/errors"
 	"math"
 	"os"
 	"sync"
@@ -50,6 +53,8 @@ type Case struct {
 	// ErrLast: the transport takes every byte of the LAST request and still reports an error for that
 	// write (n == len(p), err != nil): the request is with the peer, who answers it
 	ErrLast bool `json:"err_last,omitempty"`
+	// Typed: the reading goroutine waits for each response with ExpectPacket(&<its response type>) instead of ReadMessage+DecodeMessage
+	Typed bool `json:"typed,omitempty"`
 }
 
 var errAfterFullWrite = fmt.Errorf("transport error reported after all bytes were taken")
@@ -77,6 +82,7 @@ type harness struct {
 	cur      int // index of the request being written
 	peerCh   chan int
 	inside   bool
+	done     bool
 	readErr  error
 	dech     *rtmpref.Dechunker // independent view of what the writer has put on the wire
 	tail     []byte
@@ -119,6 +125,7 @@ func (h *harness) queueLocked(kind string, tid float64, amf3 ...bool) {
 		h.expected = append(h.expected, expect{tid, "error"})
 	}
 	h.rd.Write(responseBytes(h.ch, kind, tid, len(amf3) > 0 && amf3[0]))
+	h.cond.Broadcast()
 }
 
 func (h *harness) waitDecodedLocked(n int) error {
@@ -130,6 +137,11 @@ func (h *harness) waitDecodedLocked(n int) error {
 		waitCond(h.cond, 50*time.Millisecond)
 	}
 	return nil
+}
+
+func isEOF(err error) bool {
+	c := oe.Cause(err)
+	return c == io.EOF || c == io.ErrUnexpectedEOF || c == io.ErrClosedPipe
 }
 
 func waitCond(c *sync.Cond, d time.Duration) {
@@ -198,15 +210,49 @@ func runCase(c Case) (stInside, stOutOfOrder bool, err error) {
 	go func() {
 		defer wg.Done()
 		for {
-			m, e := a.ReadMessage()
-			if e != nil {
+			var pkt rtmp.Packet
+			var e error
+			if c.Typed {
+				// wait until a response is due, then wait for a packet of its type
 				h.mu.Lock()
-				h.readErr = e
-				h.cond.Broadcast()
+				for len(h.expected) <= len(h.results) && !h.done {
+					waitCond(h.cond, 50*time.Millisecond)
+				}
+				if len(h.expected) <= len(h.results) {
+					h.mu.Unlock()
+					return
+				}
+				kind := h.expected[len(h.results)].kind
 				h.mu.Unlock()
-				return
+				if kind == "connectRes" {
+					var p *rtmp.ConnectAppResPacket
+					if _, e = a.ExpectPacket(&p); e == nil {
+						pkt = p
+					}
+				} else {
+					var p *rtmp.CreateStreamResPacket
+					if _, e = a.ExpectPacket(&p); e == nil {
+						pkt = p
+					}
+				}
+				if e != nil && isEOF(e) {
+					h.mu.Lock()
+					h.readErr = e
+					h.cond.Broadcast()
+					h.mu.Unlock()
+					return
+				}
+			} else {
+				m, re := a.ReadMessage()
+				if re != nil {
+					h.mu.Lock()
+					h.readErr = re
+					h.cond.Broadcast()
+					h.mu.Unlock()
+					return
+				}
+				pkt, e = a.DecodeMessage(m)
 			}
-			pkt, e := a.DecodeMessage(m)
 			res := result{}
 			if e != nil {
 				res.typ = "error: " + e.Error()
@@ -361,6 +407,8 @@ func runCase(c Case) (stInside, stOutOfOrder bool, err error) {
 	if err == nil && h.readErr != nil {
 		err = fmt.Errorf("reader goroutine stopped: %v (%d of %d responses decoded)", h.readErr, len(h.results), len(h.expected))
 	}
+	h.done = true
+	h.cond.Broadcast()
 	h.mu.Unlock()
 	h.rd.Close()
 	wg.Wait()
@@ -455,7 +503,7 @@ func TestSchedules(t *testing.T) {
 			r := Req{Kind: rapid.SampledFrom([]string{"connect", "createStream", "createStream"}).Draw(t, "kind"),
 				Mode: rapid.SampledFrom([]string{"inside", "after", "free", "defer"}).Draw(t, "mode"),
 				Dup:  rapid.IntRange(0, 5).Draw(t, "dup") == 0}
-			r.Tid = rapid.SampledFrom([]float64{1, 2, 3, 4, 5, 0.5, 1e300, 4294967296}).Draw(t, "tid")
+			r.Tid = rapid.SampledFrom([]float64{1, 2, 3, 4, 5, 0.5, 1e300, 4294967296, 1.5, 2.5, 2.25, 9.3e18, 1.8e19, 1e19}).Draw(t, "tid")
 			r.AMF3 = rapid.IntRange(0, 4).Draw(t, "amf3") == 0
 			if rapid.IntRange(0, 5).Draw(t, "big") == 0 {
 				r.Pad = rapid.SampledFrom([]int{100, 3900, 4096, 8100, 8200, 12000, 70000}).Draw(t, "pad")
@@ -463,6 +511,7 @@ func TestSchedules(t *testing.T) {
 			c.Reqs = append(c.Reqs, r)
 		}
 		c.ErrLast = rapid.IntRange(0, 5).Draw(t, "errlast") == 0
+		c.Typed = rapid.IntRange(0, 2).Draw(t, "typed") == 0
 		if rapid.IntRange(0, 2).Draw(t, "scs") == 0 {
 			c.ChunkSize = rapid.SampledFrom([]uint32{1, 127, 4096, 8000, 8300, 60000, 1 << 24}).Draw(t, "chunk")
 		}
